@@ -31,6 +31,7 @@ type Cfg struct {
 	CommitWeight   int // weight of commit inside a write transaction (default 12 of ~100)
 	ReaderBoost    int // multiplier of reader begin/close weights
 	ReopenWeight   int // default 6
+	CursorMut      int // percentage of cursor-program calls that mutate the bucket (cursor reused across mutations)
 	Faults         int // weight of arming an I/O fault (0 = never)
 	FaultKinds     string // kinds of calls an armed fault may hit ("" = all; see drv.OpArmFault)
 	TearMeta       int // weight of tearing the older meta slot between sessions (0 = never)
@@ -38,7 +39,7 @@ type Cfg struct {
 }
 
 func DefaultCfg() Cfg {
-	return Cfg{MaxDepth: 5, Readers: true, Reopen: true, ErrProbes: true, Large: true, Bulk: true, Rollbacks: true, Cursors: true, Probes: true, MaxReaders: 4, BucketWeight: 1}
+	return Cfg{MaxDepth: 5, Readers: true, Reopen: true, ErrProbes: true, Large: true, Bulk: true, Rollbacks: true, Cursors: true, Probes: true, MaxReaders: 4, BucketWeight: 1, CursorMut: 12}
 }
 
 var pageSizes = []int{1024, 1024, 1024, 2048, 4096, 4096, 8192, 16384}
@@ -457,6 +458,31 @@ func CursorCalls(t *rapid.T, mb *model.Bucket, cfg Cfg, ps, n int) []drv.CurCall
 	var calls []drv.CurCall
 	for i := 0; i < n; i++ {
 		var c string
+		if cfg.CursorMut > 0 && i > 0 && rapid.IntRange(0, 99).Draw(t, "curmut") < cfg.CursorMut {
+			// a mutation through the bucket (or the cursor) while the cursor stays in use, then a repositioning call
+			mk := rapid.SampledFrom([]string{"put", "put", "del", "cdel"}).Draw(t, "curmutkind")
+			cc := drv.CurCall{C: mk}
+			if mk != "cdel" {
+				c2 := cfg
+				c2.Large = false
+				k := Key(t, mb, c2, ps)
+				cc.K = &k
+				if mk == "put" {
+					v := Val(t, c2, ps)
+					cc.V = &v
+				}
+			}
+			calls = append(calls, cc)
+			rp := drv.CurCall{C: rapid.SampledFrom([]string{"first", "last", "seek"}).Draw(t, "reposition")}
+			if rp.C == "seek" {
+				c2 := cfg
+				c2.Large = false
+				k := Key(t, mb, c2, ps)
+				rp.K = &k
+			}
+			calls = append(calls, rp)
+			continue
+		}
 		if i == 0 {
 			c = rapid.SampledFrom([]string{"first", "last", "seek", "seek"}).Draw(t, "cur0")
 		} else {
